@@ -505,9 +505,15 @@ def bisect_rule(ctx: Ctx, rule: str = "BISECT") -> int:
     if not mids or test is None:
         ctx.undetermined(rule, f"{q}: probe", "probe assignment / decision not recognised: not judged")
         return n
-    mid = mids[0].targets[0].id
+    # the probe is the name that indexes the list in the decision; its value after substituting the loop body's temporaries
+    probes = [x.slice.id for x in ast.walk(test.test) if isinstance(x, ast.Subscript) and src(x.value) == coll and isinstance(x.slice, ast.Name)]
+    mid = probes[0] if probes else mids[0].targets[0].id
+    nzp = Normaliser()
+    nzp.run_block([s_ for s_ in loop.body if isinstance(s_, ast.Assign) and s_.lineno < test.lineno])
+    mdef = [s_ for s_ in mids if s_.targets[0].id == mid]
     want = Sym.atom(f"floordiv({(Sym.atom(lo) + Sym.atom(hi)).canon()},2)")
-    got = nz.norm(mids[0].value)
+    got = nzp.env.get(mid, nz.norm(mdef[0].value) if mdef else Sym.atom(mid))
+    mids = mdef or mids
     alt = Sym.atom(lo) + Sym.atom(f"floordiv({(Sym.atom(hi) - Sym.atom(lo)).canon()},2)")
     chk(got == want or got == alt, f"probe `{short(mids[0])}` is the midpoint", "probe of the bisection is not the floor midpoint of the bounds",
         f"normal form `{got.canon()}`", mids[0])
@@ -548,10 +554,36 @@ def times_of_type_rule(ctx: Ctx, rule: str = "TIMES") -> int:
     ctx.analysed(fi)
     n = 0
     loop = next((s for s in fi.node.body if isinstance(s, ast.For) and attr_chain(s.iter) == ["self", "_messages"] and isinstance(s.target, ast.Name)), None)
-    ret = next((r for r in walk_local(fi.node) if isinstance(r, ast.Return) and isinstance(r.value, ast.Name)), None)
-    if loop is None or ret is None:
+    ret = next((r for r in walk_local(fi.node) if isinstance(r, ast.Return) and isinstance(r.value, (ast.Name, ast.ListComp))), None)
+    comp = None
+    if loop is None and ret is not None:
+        # canonical (comprehension) form: `res = [(m.time, m) for m in self._messages if m.message_type in kinds]`
+        comp = ret.value if isinstance(ret.value, ast.ListComp) else next((s.value for s in fi.node.body if isinstance(s, ast.Assign) and isinstance(ret.value, ast.Name)
+                                                                         and src(s.targets[0]) == ret.value.id and isinstance(s.value, ast.ListComp)), None)
+    if comp is not None and len(comp.generators) == 1 and attr_chain(comp.generators[0].iter) == ["self", "_messages"] and isinstance(comp.generators[0].target, ast.Name):
+        g_ = comp.generators[0]
+        m, kinds = g_.target.id, fi.params[1]
+        e_ = comp.elt
+        n += 1
+        ctx.check(isinstance(e_, ast.Tuple) and len(e_.elts) == 2 and src(e_.elts[0]) == f"{m}.time" and src(e_.elts[1]) == m, rule,
+                  f"{q}: an entry is (the message's time, the message)", function=q, construct="entries of get_message_times_of_type are not (time, message)",
+                  message=short(e_), file=fi.file, node=comp)
+        okc = len(g_.ifs) == 1 and isinstance(g_.ifs[0], ast.Compare) and isinstance(g_.ifs[0].ops[0], ast.In) and src(g_.ifs[0].left) == f"{m}.message_type" \
+            and src(g_.ifs[0].comparators[0]) == kinds
+        n += 1
+        ctx.check(okc, rule, f"{q}: a message is listed iff its kind is among the requested kinds", function=q,
+                  construct="get_message_times_of_type selects messages by a test other than `kind in requested kinds`",
+                  message=f"{[short(t) for t in g_.ifs]}", file=fi.file, node=comp)
+        n += 1
+        ctx.ok(rule, f"{q}: every message is visited (comprehension over the whole list)")
+        loop = False
+    if loop is False:
+        pass
+    elif loop is None or ret is None:
         ctx.undetermined(rule, f"{q}: collection loop", "no loop over self._messages filling a returned list: idiom not judged")
         return 0
+    if loop is False:
+        return _times_wrapper(ctx, rule, n)
     m, res, kinds = loop.target.id, ret.value.id, fi.params[1]
     apps = [c for c in ast.walk(loop) if isinstance(c, ast.Call) and call_method(c)[1] == "append" and src(call_method(c)[0]) == res]
     n += 1
@@ -571,10 +603,21 @@ def times_of_type_rule(ctx: Ctx, rule: str = "TIMES") -> int:
     n += 1
     ctx.check(not any(isinstance(x, (ast.Break, ast.Continue, ast.Return)) for x in ast.walk(loop)), rule, f"{q}: every message is visited", function=q,
               construct="get_message_times_of_type leaves its loop early", message="", file=fi.file, node=loop)
+    return _times_wrapper(ctx, rule, n)
+
+
+def _times_wrapper(ctx: Ctx, rule: str, n: int) -> int:
+    p = ctx.p
     w = p.func("Sequence.get_message_times_of_type")
     ctx.analysed(w)
     wl = next((s for s in w.node.body if isinstance(s, ast.For) and isinstance(s.target, ast.Tuple) and len(s.target.elts) == 2), None)
     okw = False
+    wc = next((s.value for s in w.node.body if isinstance(s, ast.Assign) and isinstance(s.value, ast.ListComp) and len(s.value.generators) == 1
+               and isinstance(s.value.generators[0].target, ast.Tuple) and len(s.value.generators[0].target.elts) == 2), None)
+    if wl is None and wc is not None:
+        tvar, mvar = src(wc.generators[0].target.elts[0]), src(wc.generators[0].target.elts[1])
+        okw = isinstance(wc.elt, ast.Tuple) and len(wc.elt.elts) == 2 and src(wc.elt.elts[0]) == tvar \
+            and any(isinstance(x, ast.Name) and x.id == mvar for x in ast.walk(wc.elt.elts[1])) and not wc.generators[0].ifs
     if wl is not None:
         tvar, mvar = src(wl.target.elts[0]), src(wl.target.elts[1])
         wapps = [c for c in ast.walk(wl) if isinstance(c, ast.Call) and call_method(c)[1] == "append"]
@@ -642,6 +685,9 @@ def concat_rule(ctx: Ctx, rule: str = "CONCAT") -> int:
             a = cc[0].args[0]
             if isinstance(a, ast.ListComp):
                 ok = whole_in_order(a, prm, lambda el, tv: src(el) == f"{tv}.sequence")
+            elif isinstance(a, ast.Name) and any(isinstance(s, ast.Assign) and src(s.targets[0]) == a.id and isinstance(s.value, ast.ListComp) for s in fi.node.body):
+                d_ = next(s for s in fi.node.body if isinstance(s, ast.Assign) and src(s.targets[0]) == a.id and isinstance(s.value, ast.ListComp))
+                ok = whole_in_order(d_.value, prm, lambda el, tv: src(el) == f"{tv}.sequence") and d_.lineno < cc[0].lineno
             elif isinstance(a, ast.Name):
                 lp = next((s for s in fi.node.body if isinstance(s, ast.For) and src(s.iter) == prm and isinstance(s.target, ast.Name)), None)
                 if lp is not None and not any(isinstance(x, (ast.If, ast.Break, ast.Continue)) for x in ast.walk(lp)):
@@ -668,6 +714,22 @@ def iter_mutation_rule(ctx: Ctx, functions, rule: str = "ITERMUT") -> int:
         fi = p.functions.get(q)
         if fi is None:
             continue
+        # names that denote the same container: `a = b` (plain alias) anywhere in the function
+        alias = {}
+
+        def find(x):
+            while alias.get(x, x) != x:
+                x = alias[x]
+            return x
+        for a_ in ast.walk(fi.node):
+            if isinstance(a_, ast.Assign) and len(a_.targets) == 1 and isinstance(a_.targets[0], ast.Name) and isinstance(a_.value, (ast.Name, ast.Attribute)) \
+                    and not (isinstance(a_.value, ast.Attribute) and a_.value.attr in ("time", "note", "channel", "velocity")):
+                ra, rb = find(a_.targets[0].id), find(src(a_.value))
+                if ra != rb:
+                    alias[ra] = rb
+
+        def same(x: str, y: str) -> bool:
+            return x == y or find(x) == find(y)
         for lp in ast.walk(fi.node):
             if not isinstance(lp, ast.For):
                 continue
@@ -683,12 +745,12 @@ def iter_mutation_rule(ctx: Ctx, functions, rule: str = "ITERMUT") -> int:
             n_loops += 1
             for st in ast.walk(lp):
                 hit = None
-                if isinstance(st, ast.Call) and isinstance(st.func, ast.Attribute) and src(st.func.value) == target \
+                if isinstance(st, ast.Call) and isinstance(st.func, ast.Attribute) and same(src(st.func.value), target) \
                         and st.func.attr in (LIST_MUTATORS | DICT_MUTATORS):
                     hit = st
-                elif isinstance(st, ast.Delete) and any(isinstance(t, ast.Subscript) and src(t.value) == target for t in st.targets):
+                elif isinstance(st, ast.Delete) and any(isinstance(t, ast.Subscript) and same(src(t.value), target) for t in st.targets):
                     hit = st
-                elif isinstance(st, ast.Assign) and any(isinstance(t, ast.Subscript) and isinstance(t.slice, ast.Slice) and src(t.value) == target for t in st.targets):
+                elif isinstance(st, ast.Assign) and any(isinstance(t, ast.Subscript) and isinstance(t.slice, ast.Slice) and same(src(t.value), target) for t in st.targets):
                     hit = st
                 if hit is None:
                     continue
@@ -731,4 +793,35 @@ def mutable_default_rule(ctx: Ctx, functions, rule: str = "MUTDEFAULT") -> int:
               construct=f"parameter `{bad[0][1]}` has a mutable default shared by all calls" if bad else "ok",
               message=f"`{bad[0][1]}={short(bad[0][2])}`: state written into it by one call is seen by the next call that omits the argument" if bad else "",
               file=bad[0][0].file if bad else next(iter(p.sources)), node=bad[0][2] if bad else None)
+    return n
+
+
+LAZY_BUILTINS = {"map", "filter", "zip", "iter", "reversed", "enumerate"}
+
+
+def lazy_state_rule(ctx: Ctx, functions, rule: str = "LAZY") -> int:
+    """No object attribute (and no element put into a container) is a one-shot iterator: `obj.items = map(f, xs)` can be
+    walked once, after which the object silently looks empty -- the second request on the same object sees nothing."""
+    p = ctx.p
+    n = 0
+    bad = []
+
+    def lazy(e):
+        return isinstance(e, ast.GeneratorExp) or (isinstance(e, ast.Call) and isinstance(e.func, ast.Name) and e.func.id in LAZY_BUILTINS)
+    for q in sorted(functions):
+        fi = p.functions.get(q)
+        if fi is None:
+            continue
+        for st in ast.walk(fi.node):
+            if isinstance(st, ast.Assign) and any(isinstance(t, ast.Attribute) for t in st.targets):
+                n += 1
+                if lazy(st.value):
+                    bad.append((fi, st))
+            elif isinstance(st, ast.Call) and isinstance(st.func, ast.Attribute) and st.func.attr in ("append", "insert", "add") and st.args and lazy(st.args[-1]):
+                bad.append((fi, st))
+    ctx.check(not bad, rule, f"no attribute holds a one-shot iterator ({n} attribute stores inspected)",
+              function=bad[0][0].qualname if bad else "*",
+              construct="an object attribute is assigned a one-shot iterator" if bad else "ok",
+              message=f"`{short(bad[0][1], 90)}`: the value can be iterated once; every later use of the object sees it empty" if bad else "",
+              file=bad[0][0].file if bad else next(iter(p.sources)), node=bad[0][1] if bad else None)
     return n
